@@ -25,6 +25,7 @@ typedef struct unit {
     struct unit *fwd;      /* the descriptor was revived as that unit (the migration callback keeps the first argument) */
     int last_mig_tgt, force_tgt; /* pool of the last completed migration (+1, 0 = none); a revived unit asks for it again */
     int ext_join;                /* joined and freed by the external joiner thread, not by the primary ULT */
+    int sw4;                     /* joined by a non-yieldable caller: its last step prefers ABT_self_resume_exit_to */
     int never;                   /* cancelled before it could start: its function must never be entered */
     int first_pool;              /* >= 0: a migration requested before its first run: it must start from that pool */
     volatile int join_started, cancel_done; /* a late cancellation is posted only before somebody starts joining the unit */
@@ -231,17 +232,27 @@ static int revive_unit(int old)
 }
 
 /* exactly one party resumes a suspension: the resumer thread or a unit doing ABT_self_resume_yield_to */
-static int claim_resume(unit *t)
+static int claim_resume_ex(unit *t, int directed)
 {
     int c = t->resumed_cnt;
     if (t->kind != AK_ULT || !t->named || t->joined || c >= t->want_resume)
         return 0;
+    if (topo && directed) {
+        /* early stream join: a unit that a directed resumption runs on a stream which does not serve its pool is counted
+         * nowhere while it runs, and the stream that serves its pool may terminate meanwhile (finding F18, kept apart in
+         * corpus/findings/f18_*.c): here the caller's stream must be the one that serves the target's pool */
+        int rk = -1;
+        if (t->moves || ABT_xstream_self_rank(&rk) != ABT_SUCCESS || rk != t->pool)
+            return 0;
+    }
     ABT_thread th = t->th;
     ABT_thread_state st;
     if (th == ABT_THREAD_NULL || ABT_thread_get_state(th, &st) != ABT_SUCCESS || st != ABT_THREAD_STATE_BLOCKED)
         return 0;
     return __sync_bool_compare_and_swap(&t->resumed_cnt, c, c + 1);
 }
+
+static int claim_resume(unit *t) { return claim_resume_ex(t, 1); }
 
 static void join_unit(int id, int by)
 {
@@ -351,6 +362,10 @@ static void unit_fn(void *arg)
                     if (U[c].steps[k] != OP_YIELD && U[c].steps[k] != OP_STATE)
                         U[c].steps[k] = OP_YIELD;
                 U[c].moves = 0;
+                if (sc_rnd(2)) {
+                    U[c].steps[U[c].nsteps - 1] = OP_SWITCH;
+                    U[c].sw4 = 1;
+                }
                 launch_unit(c);
                 join_unit_ex(c, u->id, sc_rnd(2));
                 break;
@@ -362,6 +377,8 @@ static void unit_fn(void *arg)
                 ABT_OK(ABT_xstream_self_rank(&rank));
                 int last = (i == u->nsteps - 1 && nch == 0);
                 int how = sc_rnd(5); /* 0 yield_to 1 suspend_to 2 exit_to 3 resume_suspend_to 4 resume_exit_to */
+                if (u->sw4)
+                    how = last ? 4 : 0;
                 if ((how == 1 || how == 3) && (!u->named || u->ext_join))
                     how = (how == 3 && last) ? 4 : 0; /* (units freed by the external joiner never wait for the resumer) */
                 if ((how == 2 || how == 4) && !last)
@@ -369,12 +386,20 @@ static void unit_fn(void *arg)
                 ABT_thread tgt = ABT_THREAD_NULL;
                 int tid_ = -1;
                 if (how >= 3) {
-                    for (int k = 0; k < nunits; k++)
-                        if (k != u->id && claim_resume(&U[k])) {
-                            tid_ = k;
-                            tgt = U[k].th;
-                            break;
+                    for (int tries = 0; tries < (u->sw4 ? 25 : 1) && tid_ < 0; tries++) {
+                        for (int k = 0; k < nunits; k++)
+                            if (k != u->id && claim_resume(&U[k])) {
+                                tid_ = k;
+                                tgt = U[k].th;
+                                break;
+                            }
+                        if (tid_ < 0 && u->sw4) {
+                            /* (a unit joined by a non-yieldable caller waits a little for a suspended unit to hand over to) */
+                            u->in_run = 0;
+                            ABT_OK(ABT_thread_yield());
+                            u->in_run = 1;
                         }
+                    }
                 } else if (rank == u->pool) {
                     ABT_OK(ABT_pool_pop_thread(sc_pool[u->pool], &tgt));
                     if (tgt != ABT_THREAD_NULL) {
@@ -648,7 +673,7 @@ static void *resumer(void *p)
         }
         for (int i = 0; i < nunits; i++) {
             unit *u = &U[i];
-            if (claim_resume(u)) {
+            if (sc_rnd(3) && claim_resume_ex(u, 0)) {
                 if (late_cancels > 0 && u->parent < 0 && sc_rnd(3) == 0) {
                     /* it is suspended (BLOCKED) and about to be resumed: a cancellation posted now must take effect at
                      * its next scheduling point */
@@ -891,6 +916,19 @@ int main(int argc, char **argv)
                 if (U[tops[i]].steps[k] == OP_SUSPEND || U[tops[i]].steps[k] == OP_MIGRATE)
                     has_susp = 1; /* the resumer reads their handles: they stay with the primary, which joins before it frees */
             if (!has_susp) {
+                if (sc_rnd(2) && U[tops[i]].pool != shared_pool && U[tops[i]].kind == AK_ULT) {
+                    U[tops[i]].steps[U[tops[i]].nsteps - 1] = OP_SWITCH;
+                    U[tops[i]].sw4 = 1;
+                    /* ... and some other unit of its pool suspends, so that there is somebody to hand over to */
+                    for (int j = 0; j < ntop; j++) {
+                        unit *q = &U[tops[j]];
+                        if (j != i && q->kind == AK_ULT && q->named && !q->ext_join && !q->cancel_me && !q->moves && !q->never &&
+                            q->first_pool < 0 && q->pool == U[tops[i]].pool) {
+                            q->steps[sc_rnd(q->nsteps)] = OP_SUSPEND;
+                            break;
+                        }
+                    }
+                }
                 U[tops[i]].ext_join = 1;
                 extj[nextj++] = tops[i];
             }
